@@ -363,6 +363,10 @@ int main(int argc, char** argv) {
   types.push_back(make_ops<S2<T1<H7>, H1>>());
   types.push_back(make_ops<T1<T1<H1>>>());
   types.push_back(make_ops<std::vector<T2<H1, H1>>>());
+  // a nested table whose padded (handle) entry is followed by further inner entries
+  types.push_back(make_ops<T1<T2<H1, std::string>>>());
+  types.push_back(make_ops<T2<T2<H1, H1>, std::string>>());
+  types.push_back(make_ops<T1<std::vector<T2<H7, std::string>>>>());
 #endif
   for (auto& t : types) check_transport(t);
 #ifndef C15_TABLES
